@@ -140,6 +140,29 @@ def impl(case):
     for t in case["targets"]:
         if t["kind"] == "ext":
             targets.append(h.ExternalModule(name=t["name"], domain="d", port_list=[h.Port(name=n, width=w) for n, w in t["ports"]], paramtype=dict)({}))
+        elif "body" in t:
+            # a child with a body of its own: signals, and instances of external modules wired with nested expressions over signals and ports
+            b = t["body"]
+            c = h.Module(name=t["name"])
+            for n, w in t["ports"]:
+                c.add(h.Port(name=n, width=w))
+            for n, w in b["signals"]:
+                c.add(h.Signal(name=n, width=w))
+            exts = [h.ExternalModule(name=x["name"], domain="d", port_list=[h.Port(name=n, width=w) for n, w in x["ports"]], paramtype=dict)({}) for x in b["targets"]]
+
+            def mkc(e, c=c):
+                if e["k"] == "sig":
+                    return c.get(e["n"])
+                if e["k"] == "slice":
+                    return mkc(e["p"])[idx_py(e["i"])]
+                return h.Concat(*[mkc(p) for p in e["ps"]])
+
+            try:
+                for i in b["insts"]:
+                    c.add(exts[i["t"]](**{pn: mkc(cc) for pn, cc in i["conns"]}), name=i["n"])
+            except Exception as ex:  # noqa
+                return {"reject": "build: " + common.errstr(ex)}
+            targets.append(c)
         else:
             c = h.Module(name=t["name"])
             for n, w in t["ports"]:
@@ -195,6 +218,10 @@ def line(case):
 
 def child_source(t):
     """the child module `impl` builds for a target of kind `mod`, as the model's source module"""
+    if "body" in t:
+        b = t["body"]
+        return {"name": t["name"], "signals": [[n, w] for n, w in b["signals"]], "ports": [[n, w, "NONE"] for n, w in t["ports"]],
+                "instances": [{"n": i["n"], "ref": {"ext": ["d", b["targets"][i["t"]]["name"]]}, "conns": i["conns"]} for i in b["insts"]]}
     first = t["ports"][0]
     sig = {"k": "sig", "n": first[0], "w": first[1]}
     return {"name": t["name"], "signals": [], "ports": [[n, w, "NONE"] for n, w in t["ports"]],
@@ -212,6 +239,9 @@ def design_line(case):
     kids = [child_source(case["targets"][t]) for t in used if case["targets"][t]["kind"] == "mod"]
     exts = [{"domain": "d", "name": case["targets"][t]["name"], "signals": [[n, w] for n, w in case["targets"][t]["ports"]],
              "ports": [[n, "NONE"] for n, _ in case["targets"][t]["ports"]]} for t in used if case["targets"][t]["kind"] == "ext"]
+    for t in used:
+        for x in case["targets"][t].get("body", {}).get("targets", []):
+            exts.append({"domain": "d", "name": x["name"], "signals": [[n, w] for n, w in x["ports"]], "ports": [[n, "NONE"] for n, _ in x["ports"]]})
     return {"prop": "MP", "op": "design", "ports_first": top["ports_first"], "modules": kids + [top["module"]], "exts": exts}
 
 
@@ -290,6 +320,32 @@ def judge(case, im, mo):
 S = common.Stream("module_pipe", impl, line, judge, chunk=16, nontrivial=lambda c: any(cc[1]["k"] != "sig" for i in c["insts"] for cc in i["conns"]))
 
 
+def gen_hier(rng, k):
+    """a top module (as in `gen_case`) whose child modules have bodies of their own: signals and instances of external modules wired with
+    nested expressions over the child's signals and ports — every module of the package is then compared with the model's (`pipelineDesign`)"""
+    case = gen_case(rng, k)
+    for j, t in enumerate(case["targets"]):
+        if t["kind"] != "mod":
+            continue
+        sigs = [(f"c{i}", rng.randint(1, 5)) for i in range(rng.randint(1, 3))]
+        allsigs = sigs + list(t["ports"])
+        xs = [{"name": f"X{k}_{j}_{q}", "ports": [("abcd"[r], rng.randint(1, 4)) for r in range(rng.randint(1, 3))]} for q in range(rng.randint(1, 2))]
+        insts = []
+        for q in range(rng.randint(1, 3)):
+            ti = rng.randrange(len(xs))
+            conns = [[pn, conn_of_width(rng, allsigs, pw, rng.choice([0, 1, 2, 3]))] for pn, pw in xs[ti]["ports"]]
+            insts.append({"n": f"u{q}", "t": ti, "conns": conns})
+        t["body"] = {"signals": sigs, "targets": xs, "insts": insts}
+        if rng.random() < 0.12:
+            # a fault inside the child: the whole design is refused
+            c = rng.choice(rng.choice(insts)["conns"])
+            c[1] = {"k": "slice", "p": {"k": "sig", "n": sigs[0][0], "w": sigs[0][1]}, "i": {"i": sigs[0][1]}}
+            case["fault"] = case["fault"] or "index-in-child"
+    return case
+
+
+SH = common.Stream("hier_pipe", impl, design_line, judge_design, chunk=16, nontrivial=lambda c: any("body" in t for t in c["targets"]))
+
 SA = common.Stream("array_pipe", impl, line, judge, chunk=16, nontrivial=lambda c: any("array" in i for i in c["insts"]))
 
 
@@ -320,4 +376,9 @@ def run(ctx, n=None):
     SD.run(ctx, cases[: max(60, n // 3)])
     # … with instance arrays among the instances (`pipelineA`: ArrayFlattener inside the composition; array_elements_read_their_bits)
     SA.run(ctx, [gen_case(rng, 100000 + k, arrays=True) for k in range(max(80, n // 2))])
+    # … and designs whose children have bodies of their own (a generator of its own random stream: the draws of the streams above and
+    # after do not move when this one grows)
+    import random as _random
+    rng2 = _random.Random(ctx.seed * 7919 + 13)
+    SH.run(ctx, [gen_hier(rng2, 200000 + k) for k in range(max(60, n // 3))])
     ctx.rep.extra["module_pipe"] = dict(STATS)
